@@ -54,7 +54,14 @@ Cases ==
   \o [i \in 1..18 |-> IF i <= 9 THEN WrapPeerCase(11 + i, (i - 1) \div 3, (i - 1) % 3)
                       ELSE WrapClientCase(2 + i, (i - 10) \div 3, (i - 10) % 3)]
 
+\* the harness's whole-string IGE primitive (used by the envelope and handshake terms) must equal
+\* the unfolded definition
+PrimCases == [i \in 1..8 |-> [kind |-> "prim", blocks |-> (i + 1) \div 2,
+                checks |-> << IF i % 2 = 1
+                                THEN Eq(IgeEP(Var("key"), Var("iv"), Var("data")), IgeEncT(Var("key"), Var("iv"), Var("data"), (i + 1) \div 2))
+                                ELSE Eq(IgeDP(Var("key"), Var("iv"), Var("data")), IgeDecT(Var("key"), Var("iv"), Var("data"), (i + 1) \div 2)) >>]]
+
 LenCases == [n \in 1..41 |-> [kind |-> "length", len |-> n - 1, valid |-> Def!ValidLen(n - 1)]]
 
-ASSUME ndJsonSerialize(IOEnv.VERIF_OUT, Cases \o LenCases)
+ASSUME ndJsonSerialize(IOEnv.VERIF_OUT, Cases \o PrimCases \o LenCases)
 =============================================================================
